@@ -48,6 +48,10 @@ CANARIES = [
     ('radix_ctor', 'S', r'\(5, verif_arc_dyn\(Butterfly32', '(4, verif_arc_dyn(Butterfly32', 'new'),
     ('radix_ctor', 'S', r'_ => \(3, verif_arc_dyn\(Butterfly27', '_ => (2, verif_arc_dyn(Butterfly27', 'new'),
     ('sse_butterflies', 'P', r'self\.verif_kernel2_inplace\(chunk\)', 'self.verif_kernel_inplace(chunk)', 'process_with_scratch'),
+    ('plan_avx', 'S', r'verif_sort_cands\(&mut bluesteins_candidates\);', '', 'plan_bluesteins'),
+    ('plan_avx', 'S', r'if candidate >= baseline_candidate \{', 'if candidate >= 2 * baseline_candidate {', 'plan_bluesteins'),
+    ('plan_scalar', 'S', r'let inner_len_factor3 = inner_len_pow2 / 4 \* 3;', 'let inner_len_factor3 = inner_len_pow2 * 3;', 'design_prime'),
+    ('plan_sse', 'S', r'let inner_len_factor3 = inner_len_pow2 / 4 \* 3;', 'let inner_len_factor3 = inner_len_pow2 * 3;', 'design_prime'),
     ('plan_sse', 'S', r'const MIN_RADIX4_BITS: u32 = 6;', 'const MIN_RADIX4_BITS: u32 = 1;', 'design_fft_with_factors'),
     ('plan_sse', 'S', r'let k = cross_bits / 2;', 'let k = cross_bits / 2 + 1;', 'design_radix4'),
     ('plan_sse', 'S', r'if left_len < 33 && right_len < 33 \{', 'if left_len < 34 && right_len < 34 {', 'design_mixed_radix'),
